@@ -15,6 +15,7 @@ mod c11;
 mod c12;
 mod c13;
 mod c14;
+mod c15;
 mod c16;
 mod c17;
 mod c18;
@@ -129,6 +130,7 @@ fn main() {
         "C12" => c12::run(seed, count, thorough, &mut out),
         "C13" => c13::run(seed, count, thorough, &mut out),
         "C14" => c14::run(seed, count, thorough, &mut out),
+        "C15" => c15::run(seed, count, thorough, &mut out, &tmp),
         "C16" => c16::run(seed, count, thorough, &mut out),
         "C17" => c17::run(&mut out),
         "C18" => c18::run(seed, count, thorough, &mut out),
